@@ -672,11 +672,28 @@ def r10(R):
     g, b, F = R.cfg(f, cls, max_depth=0)
     R.instance('FileStorage._txn_undo_write blob copy')
     seen = [0]
+    # copies may be SCHEDULED: the record's id goes into a local list that a
+    # later `for` loop of this function works off, storing a blob file for
+    # each entry (so that a refused undo has stored nothing, C06.R14)
+    deferred = {l.iter.id for l in walk_local(f.node)
+                if isinstance(l, ast.For) and isinstance(l.iter, ast.Name)
+                and any(_contains_call(x, '_blob_storeblob')
+                        for x in l.body)}
+
+    def schedules(op):
+        c = op.ast
+        return op.kind == 'call' and isinstance(c, ast.Call) and isinstance(
+            c.func, ast.Attribute) and c.func.attr == 'append' and \
+            isinstance(c.func.value, ast.Name) and \
+            c.func.value.id in deferred
 
     def edge(node, st, lab, tgt):
-        blob, stored = st
+        blob, stored, pending = st
         if node.kind == 'loophead':
-            return (False, False)
+            return (False, False, pending)
+        if node.kind == 'foriter' and isinstance(node.ast, ast.Name) and \
+                node.ast.id in deferred and lab not in ('e', 'eb'):
+            pending = False
         if node.kind == 'test' and lab in ('T', 'F') and _contains_call(
                 node.ast, 'is_blob_record'):
             seen[0] += 1
@@ -714,10 +731,17 @@ def r10(R):
                 if op.kind == 'call' and op.path and \
                         op.path[-1] == '_blob_storeblob':
                     stored = True
-        return (blob, stored)
+                if schedules(op):
+                    stored = pending = True
+        return (blob, stored, pending)
 
     def at(node, st):
-        blob, stored = st
+        blob, stored, pending = st
+        if pending and node.id == g.exit_return:
+            return Violation(
+                'a blob copy that was scheduled for an undo record is never '
+                'made on this path: the function returns without working '
+                'off the list')
         if blob and not stored:
             for op in F.ops(node):
                 if op.kind == 'call' and path_is(
@@ -732,7 +756,7 @@ def r10(R):
                         'keeps the bytes of the first undo')
         return st
 
-    vs, stats = explore(g, (False, False), at=at, edge=edge)
+    vs, stats = explore(g, (False, False, False), at=at, edge=edge)
     R.count(stats)
     R.require(seen[0] or vs, '_txn_undo_write no longer tests for blob '
               'records')
